@@ -92,6 +92,7 @@ fn dispatch(name: &str, ctx: &Ctx, rep: &mut Report) -> bool {
         "slot_probe" => slot_probe(ctx, rep),
         "cost" => cost(ctx, rep),
         "reuse" => reuse(ctx, rep),
+        "container" => container(ctx, rep),
         _ => return false,
     }
     true
@@ -506,7 +507,7 @@ fn order_only(ctx: &Ctx, rep: &mut Report) {
         let wide = rng.below(3) != 0;
         let cap = if algo == 4 { 30 } else if ctx.big { 100 } else { 50 };
         let n = rng.range(2, cap);
-        let fam = ["uniform", "lattice", "duppoints", "euclid", "allequal", "sorted", "revsorted"][rng.below(7) as usize];
+        let fam = ["uniform", "lattice", "duppoints", "euclid", "allequal", "sorted", "revsorted", "signed", "negative"][rng.below(9) as usize];
         let v = matrix_f64(&mut rng, n as usize, fam, wide);
         cases.push(AlgoCase { algo, method, wide, n, bits: to_bits(&v, wide), family: fam });
     }
@@ -639,8 +640,23 @@ fn family_of(c: &AlgoCase, o: &Outcome) -> Option<Vec<(Vec<usize>, f64)>> {
 }
 
 // ------------------------------------------------------------------ C07
+fn run_reused<T: Bits>(st: &mut kodama::LinkageState<T>, d: &mut kodama::Dendrogram<T>, algo: u8, method: u8, n: u64, bits: &[u64]) -> Outcome {
+    let mut m: Vec<T> = bits.iter().map(|&b| T::from_bits64(b)).collect();
+    match catch(|| call_with::<T>(algo, method, st, &mut m, n as usize, d)) {
+        Ok(()) => Outcome::Ok { obs: d.observations(), steps: steps_of(d), after: m.iter().map(|x| x.to_bits64()).collect(), acc: 0 },
+        Err((k, msg)) => Outcome::Panic(k, msg),
+    }
+}
+
 fn slot_probe(ctx: &Ctx, rep: &mut Report) {
     let mut rng = Rng::new(ctx.seed ^ 0xC07);
+    // half of the probes go through the `_with` forms on objects shared by all
+    // probes (sizes change from probe to probe)
+    let mut st64: kodama::LinkageState<f64> = kodama::LinkageState::new();
+    let mut d64: kodama::Dendrogram<f64> = kodama::Dendrogram::new(0);
+    let mut st32: kodama::LinkageState<f32> = kodama::LinkageState::new();
+    let mut d32: kodama::Dendrogram<f32> = kodama::Dendrogram::new(0);
+    let mut probe_no = 0u64;
     let sizes: Vec<u64> = if ctx.big { vec![2, 3, 4, 5, 6, 7, 9, 12, 17, 33, 64, 100, 257, 700, 1500, 3000] } else { vec![2, 3, 4, 5, 6, 8, 11, 16, 31, 64, 150, 400, 1000] };
     for &n in &sizes {
         let len = (n * (n - 1) / 2) as usize;
@@ -658,7 +674,11 @@ fn slot_probe(ctx: &Ctx, rep: &mut Report) {
                     let wide = (k + algo as usize) % 3 != 0 || n > 1000;
                     let c = AlgoCase { algo, method, wide, n, bits: to_bits(&v, wide), family: "probe" };
                     tick(&ctx.progress, &format!("slot probe n={} k={} {}", n, k, ALGO_NAMES[algo as usize]));
-                    let out = run_fresh_w(wide, algo, method, n, &c.bits);
+                    probe_no += 1;
+                    let reused = probe_no % 2 == 1;
+                    let out = if !reused { run_fresh_w(wide, algo, method, n, &c.bits) }
+                              else if wide { run_reused::<f64>(&mut st64, &mut d64, algo, method, n, &c.bits) }
+                              else { run_reused::<f32>(&mut st32, &mut d32, algo, method, n, &c.bits) };
                     rep.evaluations += 1;
                     rep.nontrivial.insert(hash64(&[n, k as u64, algo as u64, method as u64]));
                     let steps = match &out { Outcome::Ok { steps, .. } => steps, Outcome::Panic(kk, m) => { rep.violation(format!("C07 violated: panic {} {} on probe n={} slot={}", kk, m, n, k)); continue; } };
@@ -666,8 +686,8 @@ fn slot_probe(ctx: &Ctx, rep: &mut Report) {
                     let (i, j) = prs[k];
                     let s0 = &steps[0];
                     if (s0.c1, s0.c2) != (i, j) || height(&c, s0) != 1.0 {
-                        rep.violation(format!("C07 violated: n={} slot {} is pair ({}, {}) but the first step of {} {} {} merges ({}, {}) at {:e}",
-                            n, k, i, j, ALGO_NAMES[algo as usize], METHOD_NAMES[method as usize], if wide { "f64" } else { "f32" }, s0.c1, s0.c2, height(&c, s0)));
+                        rep.violation(format!("C07 violated: n={} slot {} is pair ({}, {}) but the first step of {}{} {} {} merges ({}, {}) at {:e}",
+                            n, k, i, j, ALGO_NAMES[algo as usize], if reused { "_with (state reused from earlier probes of other sizes)" } else { "" }, METHOD_NAMES[method as usize], if wide { "f64" } else { "f32" }, s0.c1, s0.c2, height(&c, s0)));
                         continue;
                     }
                     if method == 0 && steps.len() >= 2 {
@@ -677,8 +697,8 @@ fn slot_probe(ctx: &Ctx, rep: &mut Report) {
                             let lab = |o: usize| if o == i || o == j { n as usize } else { o };
                             let want = (lab(p).min(lab(q)), lab(p).max(lab(q)));
                             if (s1.c1, s1.c2) != want || height(&c, s1) != 2.0 {
-                                rep.violation(format!("C07 violated: n={} slot2={} pair=({}, {}): second step of {} single is ({}, {}) at {:e}, expected {:?} at 2",
-                                    n, x, p, q, ALGO_NAMES[algo as usize], s1.c1, s1.c2, height(&c, s1), want));
+                                rep.violation(format!("C07 violated: n={} slot2={} pair=({}, {}): second step of {}{} single is ({}, {}) at {:e}, expected {:?} at 2",
+                                    n, x, p, q, ALGO_NAMES[algo as usize], if reused { "_with (reused state)" } else { "" }, s1.c1, s1.c2, height(&c, s1), want));
                             }
                         }
                     }
@@ -692,17 +712,17 @@ fn slot_probe(ctx: &Ctx, rep: &mut Report) {
 // ------------------------------------------------------------------ C14
 fn cost(ctx: &Ctx, rep: &mut Report) {
     let mut rng = Rng::new(ctx.seed ^ 0xC14);
-    let sizes: Vec<u64> = if ctx.big { vec![8, 9, 13, 21, 34, 55, 89, 144, 233, 377, 610, 1000] } else { vec![8, 10, 16, 27, 45, 80, 140, 250, 420] };
+    let sizes: Vec<u64> = if ctx.big { vec![8, 9, 13, 21, 34, 55, 89, 144, 233, 256, 300, 377, 610, 1000] } else { vec![8, 10, 16, 27, 45, 80, 140, 250, 256, 300, 420] };
     let mut worst = 0.0f64;
     let mut cases: Vec<AlgoCase> = ctx.cases.iter().filter(|c| c.method <= 4 && c.algo <= 2 && c.n >= 8).cloned().collect();
     for &n in &sizes {
-        for fam in ["sorted", "revsorted", "allequal", "lattice", "collinear", "uniform", "neartie", "duppoints", "euclid"] {
+        for fam in ["sorted", "revsorted", "allequal", "lattice", "collinear", "uniform", "neartie", "duppoints", "euclid", "staircase"] {
             for method in 0..5u8 { for &algo in &[0u8, 2, 1] {
                 if !accepts(algo, method) { continue; }
                 if algo == 1 && fam != "uniform" && fam != "lattice" { continue; }
                 let wide = rng.below(4) != 0;
                 let v = matrix_f64(&mut rng, n as usize, fam, wide);
-                cases.push(AlgoCase { algo, method, wide, n, bits: to_bits(&v, wide), family: if fam == "sorted" { "sorted" } else if fam == "revsorted" { "revsorted" } else { "other" } });
+                cases.push(AlgoCase { algo, method, wide, n, bits: to_bits(&v, wide), family: if fam == "sorted" { "sorted" } else if fam == "revsorted" { "revsorted" } else if fam == "staircase" { "staircase" } else { "other" } });
             }}
         }
     }
@@ -771,6 +791,73 @@ fn reuse(ctx: &Ctx, rep: &mut Report) {
     for hnd in handles { match hnd.join() { Ok(bad) => { threaded += shared.len() as u64; for b in bad { rep.violation(format!("C08 violated: history gives different bits when run concurrently on 16 threads :: {}", b)); } } Err(_) => rep.violation("C08 violated: worker thread panicked".to_string()) } }
     rep.evaluations += threaded;
     rep.extra.push(("histories_on_16_threads".to_string(), threaded.to_string()));
+}
+
+// ------------------------------------------------------------------ C19
+/// independent statement of the container contract, checked on the public API
+fn container(ctx: &Ctx, rep: &mut Report) {
+    use kodama::{Dendrogram, Step};
+    let mut rng = Rng::new(ctx.seed ^ 0xC19);
+    let rounds = if ctx.big { 6000 } else { 1500 };
+    for r in 0..rounds {
+        tick(&ctx.progress, &format!("container round {}", r));
+        let n = rng.below(9) as usize;
+        let mut d: Dendrogram<f64> = if r % 2 == 0 { Dendrogram::new(n) } else { let mut x = Dendrogram::new(rng.below(9) as usize); x.reset(n); x };
+        rep.evaluations += 1;
+        if d.len() != 0 || d.observations() != n { rep.violation(format!("C19 violated: new/reset({}) gives len {} observations {}", n, d.len(), d.observations())); }
+        // capacity: exactly n-1 pushes
+        let cap = n.saturating_sub(1);
+        let mut sizes: Vec<usize> = vec![];
+        for k in 0..cap + 2 {
+            let (c1, c2, sz) = (rng.below(20) as usize, rng.below(20) as usize, 1 + rng.below(9) as usize);
+            let x = (rng.below(50) as f64) * 0.25;
+            let res = catch(|| d.push(Step::new(c1, c2, x, sz)));
+            rep.evaluations += 1;
+            if (k < cap) != res.is_ok() { rep.violation(format!("C19 violated: Dendrogram for n={}: push #{} {}", n, k + 1, if res.is_ok() { "accepted beyond n-1" } else { "rejected" })); break; }
+            if res.is_ok() {
+                sizes.push(sz);
+                let s = &d[k];
+                if (s.cluster1, s.cluster2) != (c1.min(c2), c1.max(c2)) || s.size != sz || s.dissimilarity != x {
+                    rep.violation(format!("C19 violated: Step::new({}, {}, {}, {}) stored as ({}, {}, {}, {})", c1, c2, x, sz, s.cluster1, s.cluster2, s.dissimilarity, s.size));
+                }
+            }
+        }
+        for label in 0..n + d.len() {
+            let want = if label < n { 1 } else { sizes[label - n] };
+            match catch(|| d.cluster_size(label)) {
+                Ok(v) if v == want => {}
+                other => rep.violation(format!("C19 violated: cluster_size({}) on n={} len={} gives {:?}, expected {}", label, n, d.len(), other.map_err(|e| e.1), want)),
+            }
+            rep.evaluations += 1;
+        }
+        if d.len() > 0 {
+            let i = rng.below(d.len() as u64) as usize;
+            let (a, b) = (rng.below(30) as usize, rng.below(30) as usize);
+            d[i].set_clusters(a, b);
+            if (d[i].cluster1, d[i].cluster2) != (a.min(b), a.max(b)) { rep.violation(format!("C19 violated: set_clusters({}, {}) stored ({}, {})", a, b, d[i].cluster1, d[i].cluster2)); }
+        }
+        // eq_with_epsilon against its statement, on dendrograms of possibly different length / n
+        let n2 = if rng.below(3) == 0 { rng.below(9) as usize } else { n };
+        let mut e: Dendrogram<f64> = Dendrogram::new(n2);
+        let len2 = if rng.below(3) == 0 { rng.below(n2.max(1) as u64) as usize } else { d.len().min(n2.saturating_sub(1)) };
+        for k in 0..len2 {
+            let (c1, c2, x, sz) = if k < d.len() { (d[k].cluster1, d[k].cluster2, d[k].dissimilarity, d[k].size) } else { (1, 2, 1.0, 2) };
+            let x2 = match rng.below(5) { 0 => x + 0.5, 1 => x - 0.125, 2 => x * (1.0 + 1e-9), _ => x };
+            let (c1, sz) = (if rng.below(12) == 0 { c1 + 1 } else { c1 }, if rng.below(12) == 0 { sz + 1 } else { sz });
+            let _ = catch(|| e.push(Step::new(c1, c2, x2, sz)));
+        }
+        for eps in [0.0, 0.125, 0.5, 1e-9, 0.4999, 3.0] {
+            let want = d.len() == e.len() && d.steps().iter().zip(e.steps()).all(|(s, t)|
+                s.cluster1 == t.cluster1 && s.cluster2 == t.cluster2 && s.size == t.size && (s.dissimilarity - t.dissimilarity).abs() <= eps);
+            let got = d.eq_with_epsilon(&e, eps);
+            rep.evaluations += 1;
+            rep.nontrivial.insert(hash64(&[r as u64, eps.to_bits()]));
+            if got != want {
+                rep.violation(format!("C19 violated: eq_with_epsilon(eps={}) is {} but the statement gives {}: left n={} steps={:?} right n={} steps={:?}", eps, got, want, n, steps_of(&d), n2, steps_of(&e)));
+            }
+            if r == 3 && eps == 0.125 { rep.sample(format!("n={} steps={:?} vs n={} steps={:?} eps={} -> {}", n, steps_of(&d), n2, steps_of(&e), eps, got)); }
+        }
+    }
 }
 
 // ------------------------------------------------------------------ C13
